@@ -5,6 +5,7 @@ import (
 	"errors"
 	"fmt"
 	"net/http"
+	"net/http/httptest"
 	"strconv"
 	"strings"
 	"sync"
@@ -500,6 +501,8 @@ func streamIcpt(c *Ctx) {
 	c.exhaust = true
 	c.Note("all interceptor lists over {1,2,3,nil} up to length %d; all compositions into consecutive groups for lists up to 4; %d random nestings (depth<=3) per list", maxLen, reps)
 	icptSharedAndMixedProbes(c)
+	doneContextChainProbe(c, "icpt-order")
+	icptValueTypeProbe(c)
 	icptGroupShapeProbes(c)
 	// slices with spare capacity / sub-slices of one backing array (aliasing hazards)
 	for _, side := range sides {
@@ -682,6 +685,67 @@ func icptSharedAndMixedProbes(c *Ctx) {
 	}
 }
 
+// icptValueTypeProbe: an interceptor need not be a pointer: a stateless struct value is a valid,
+// non-nil interceptor and wraps every call wherever it stands in the list.
+func icptValueTypeProbe(c *Ctx) {
+	for _, side := range []string{"client", "handler"} {
+		for _, kind := range []string{"unary", "stream"} {
+			for _, shape := range []string{"alone", "between", "first-of-group", "own-group-later"} {
+				log := stampLog
+				var opts []connect.Option
+				a, b := &logIcpt{id: 1, log: log}, &logIcpt{id: 2, log: log}
+				want := ""
+				switch shape {
+				case "alone":
+					opts, want = []connect.Option{connect.WithInterceptors(stampIcptValue{})}, "99"
+				case "between":
+					opts, want = []connect.Option{connect.WithInterceptors(a, stampIcptValue{}, b)}, "1,99,2"
+				case "first-of-group":
+					opts, want = []connect.Option{connect.WithInterceptors(stampIcptValue{}, a)}, "99,1"
+				default:
+					opts, want = []connect.Option{connect.WithInterceptors(a), connect.WithInterceptors(stampIcptValue{}), connect.WithInterceptors(b)}, "1,99,2"
+				}
+				mk := func(hopts ...connect.HandlerOption) http.Handler {
+					if kind == "unary" {
+						return connect.NewUnaryHandler("/s/m", func(context.Context, *connect.Request[emptypb.Empty]) (*connect.Response[emptypb.Empty], error) {
+							return connect.NewResponse(&emptypb.Empty{}), nil
+						}, hopts...)
+					}
+					return connect.NewClientStreamHandler("/s/m", func(ctx context.Context, s *connect.ClientStream[emptypb.Empty]) (*connect.Response[emptypb.Empty], error) {
+						return connect.NewResponse(&emptypb.Empty{}), nil
+					}, hopts...)
+				}
+				var cl *connect.Client[emptypb.Empty, emptypb.Empty]
+				if side == "client" {
+					var copts []connect.ClientOption
+					for _, o := range opts {
+						copts = append(copts, o)
+					}
+					cl = connect.NewClient[emptypb.Empty, emptypb.Empty](&inprocClient{h: mk()}, "http://h/s/m", copts...)
+				} else {
+					var hopts []connect.HandlerOption
+					for _, o := range opts {
+						hopts = append(hopts, o)
+					}
+					cl = connect.NewClient[emptypb.Empty, emptypb.Empty](&inprocClient{h: mk(hopts...)}, "http://h/s/m")
+				}
+				log.reset()
+				if kind == "unary" {
+					_, _ = cl.CallUnary(context.Background(), connect.NewRequest(&emptypb.Empty{}))
+				} else {
+					s := cl.CallClientStream(context.Background())
+					_, _ = s.CloseAndReceive()
+				}
+				got := idsOf(log.events, "in")
+				c.Count("value-type-interceptor")
+				if got != want {
+					c.Fail("icpt-order", fmt.Sprintf("a stateless struct-valued interceptor (%s), %s, %s call", shape, side, kind), got, "every non-nil interceptor wraps the call, in declaration order: want "+want)
+				}
+			}
+		}
+	}
+}
+
 // icptGroupShapeProbes (oracle only):
 //
 //	(a) a base group built with WithOptions from a slice with spare capacity, extended twice
@@ -772,6 +836,78 @@ func icptGroupShapeProbes(c *Ctx) {
 						c.Fail("icpt-order", fmt.Sprintf("a WithInterceptors group of %d as the %s group, %s, %s call", n, position, side, kind), got, "every declared interceptor wraps the call, in declaration order: want "+want)
 					}
 				}
+			}
+		}
+	}
+}
+
+// stampIcptValue is an interceptor of a plain value type without state (a zero value that is
+// not nil): it marks the calls it wraps through a package-level log.
+type stampIcptValue struct{}
+
+var stampLog = &eventLog{}
+
+func (stampIcptValue) WrapUnary(next connect.UnaryFunc) connect.UnaryFunc {
+	return func(ctx context.Context, req connect.AnyRequest) (connect.AnyResponse, error) {
+		stampLog.add("in", 99)
+		return next(ctx, req)
+	}
+}
+func (stampIcptValue) WrapStreamingClient(next connect.StreamingClientFunc) connect.StreamingClientFunc {
+	return func(ctx context.Context, spec connect.Spec) connect.StreamingClientConn {
+		stampLog.add("in", 99)
+		return next(ctx, spec)
+	}
+}
+func (stampIcptValue) WrapStreamingHandler(next connect.StreamingHandlerFunc) connect.StreamingHandlerFunc {
+	return func(ctx context.Context, conn connect.StreamingHandlerConn) error {
+		stampLog.add("in", 99)
+		return next(ctx, conn)
+	}
+}
+
+// doneContextChainProbe: every interceptor wraps each call exactly once - also a call that is
+// doomed on arrival (a zero timeout, a request context that is already cancelled): the chain
+// runs once, in order, and sees the failure; user code does not run. The key is the caller's
+// (interceptor order for C16, dispatch for C12).
+func doneContextChainProbe(c *Ctx, key string) {
+	for _, proto := range []string{"connect", "grpc", "grpcweb"} {
+		for _, how := range []string{"zero-timeout", "cancelled-context", "live"} {
+			log := &eventLog{}
+			user := 0
+			h := connect.NewUnaryHandler("/s/m", func(ctx context.Context, r *connect.Request[emptypb.Empty]) (*connect.Response[emptypb.Empty], error) {
+				user++
+				return connect.NewResponse(&emptypb.Empty{}), nil
+			}, connect.WithInterceptors(&logIcpt{id: 1, log: log}), connect.WithInterceptors(&logIcpt{id: 2, log: log}))
+			ct := map[string]string{"connect": "application/proto", "grpc": "application/grpc", "grpcweb": "application/grpc-web"}[proto]
+			body := ""
+			if proto != "connect" {
+				body = "\x00\x00\x00\x00\x00"
+			}
+			req := httptest.NewRequest(http.MethodPost, "/s/m", strings.NewReader(body))
+			req.ProtoMajor, req.ProtoMinor, req.Proto = 2, 0, "HTTP/2.0"
+			req.Header.Set("Content-Type", ct)
+			switch how {
+			case "zero-timeout":
+				if proto == "connect" {
+					req.Header.Set("Connect-Timeout-Ms", "0")
+				} else {
+					req.Header.Set("Grpc-Timeout", "0n")
+				}
+			case "cancelled-context":
+				ctx, cancel := context.WithCancel(req.Context())
+				cancel()
+				req = req.WithContext(ctx)
+			}
+			h.ServeHTTP(httptest.NewRecorder(), req)
+			got := fmt.Sprintf("interceptors in=%s user=%d", idsOf(log.events, "in"), user)
+			want := "interceptors in=1,2 user=0"
+			if how == "live" {
+				want = "interceptors in=1,2 user=1"
+			}
+			c.Count("done-context-chain")
+			if got != want {
+				c.Fail(key, fmt.Sprintf("%s unary request, %s, handler with two interceptors", proto, how), got, "every interceptor wraps each dispatched call exactly once, also a call whose context is already over: want "+want)
 			}
 		}
 	}
